@@ -53,8 +53,8 @@ def _closed_mixin():
 
 def strategy(tier):
     if tier == "quick":
-        return model_spec(models=("mass_balance", "energy"), dims=(2, 2, 2, 2, 3), simplex=False)
-    return model_spec(models=("mass_balance", "energy"), dims=(2, 2, 3), simplex=True)
+        return model_spec(models=("mass_balance", "energy"), dims=(2, 2, 2, 2, 3), simplex=False, nonmatching=True)
+    return model_spec(models=("mass_balance", "energy"), dims=(2, 2, 3), simplex=True, nonmatching=True)
 
 
 def warmup():
